@@ -35,17 +35,14 @@ def flowRecordCost (bs : Bytes) : Nat :=
     | some (len, r2) =>
       if fmt = 1 then 2 + hdrCost r2
       else if fmt = 1001 then 2
-      else if fmt = 1002 then (if len ≠ 16 ∧ len ≠ 28 then 2 else 2 + (len - 8))   -- make([]byte, l-8)
+      else if fmt = 1002 then (if len ≠ 16 ∧ len ≠ 28 then 1 else 2 + (len - 8))   -- skipped (F19d) | make([]byte, l-8)
       else 1
 
 def counterRecordCost (_ : Bytes) : Nat := 2
 
 def flowSampleCost (bs : Bytes) : Nat :=
-  2 + match readFields [4, 1] bs with
-    | some ([_, _], r0) =>
-      match readFields [4, 4, 4, 4, 4, 4] (r0.drop 3) with
-      | some ([_, _, _, _, _, n], r1) => loopCost flowRecordCost flowRecord (r1.length + 1) n r1
-      | _ => 0
+  3 + match readFields [4, 1, 3, 4, 4, 4, 4, 4, 4] bs with          -- struct, map, the 3-octet index buffer (F19b)
+    | some ([_, _, _, _, _, _, _, _, n], r1) => loopCost flowRecordCost flowRecord (r1.length + 1) n r1
     | _ => 0
 
 def counterSampleCost (bs : Bytes) : Nat :=
